@@ -5,7 +5,7 @@
     modelled, not verified; their observed rules are listed in the evidence and held to the code by the
     correspondence C16 on several thousand mutated documents per run). *)
 From Coq Require Import ZArith QArith String List Bool.
-From Texel Require Import Tms.Json Tms.Model Tms.ProofsC16.
+From Texel Require Import Tms.Json Tms.Model Tms.ProofsC16 Tms.ProofsC16b Tms.ProofsC16c.
 From Texel.Gen Require Import ConstsGen TmsData.
 Import ListNotations.
 Open Scope Z_scope.
@@ -20,6 +20,34 @@ Print Assumptions C16_builtin_roundtrip.
 Theorem C16_testdoc_roundtrip : Forall (fun d => roundtrip_ok (snd d)) gen_tms_test_documents.
 Proof. exact testdoc_roundtrip_lemma. Qed.
 Print Assumptions C16_testdoc_roundtrip.
+
+(** The round trip, for EVERY document: if a document decodes to v, and the unsigned members of v's tile matrices
+    survive printing and reading back ([tms_stable]: the hypothesis the proof forces -- it fails exactly for values
+    wrapped from negative numbers, F6b below; every value below 2^53 satisfies it), then decoding the encoding of v
+    gives v with nil and empty slices identified ([norm_tms]) ... *)
+Theorem C16_decode_encode_decode : forall j t, decodeTMS j = Ok t -> tms_stable t ->
+  decodeTMS (encodeTMS t) = Ok (norm_tms t).
+Proof. exact decode_encode_decode_lemma. Qed.
+Print Assumptions C16_decode_encode_decode.
+
+(** ... the encoding does not see that identification, so it is stable: encode (decode (encode v)) = encode v ... *)
+Theorem C16_encode_stable : forall j t, decodeTMS j = Ok t -> tms_stable t ->
+  exists t', decodeTMS (encodeTMS t) = Ok t' /\ encodeTMS t' = encodeTMS t.
+Proof.
+  intros j t H S. exists (norm_tms t). split; [exact (decode_encode_decode_lemma j t H S)|exact (encode_norm t)].
+Qed.
+Print Assumptions C16_encode_stable.
+
+(** ... and from the second round on the value itself is a fixed point. *)
+Theorem C16_normal_form_fixed : forall t, norm_tms (norm_tms t) = norm_tms t /\ encodeTMS (norm_tms t) = encodeTMS t.
+Proof. intros t. split; [exact (norm_idem t)|exact (encode_norm t)]. Qed.
+Print Assumptions C16_normal_form_fixed.
+
+(** every decoded value is well formed: validated, CRS in one of the three forms with a parsable URI resp. a
+    canonical payload, matrices sorted by the integer their id denotes, finite floats *)
+Theorem C16_decoded_well_formed : forall j t, decodeTMS j = Ok t -> tms_wf t.
+Proof. exact decode_wf. Qed.
+Print Assumptions C16_decoded_well_formed.
 
 (** What the code as it stands gets wrong (each witness is found again on the implementation by the harness on every
     run and attributed to the known finding named). *)
@@ -66,3 +94,14 @@ Theorem C16_empty_slice_comes_back_nil : exists t t' m m',
   t <> t' /\ encodeTMS t' = encodeTMS t.
 Proof. exact empty_slice_not_stable. Qed.
 Print Assumptions C16_empty_slice_comes_back_nil.
+
+
+(** ** Non-vacuity: every built-in document meets the hypotheses of the round trip theorem: it decodes and the
+    unsigned members of its tile matrices are stable (checked by computation through [tms_stableb]) *)
+Theorem C16_builtin_stable : forall name doc, In (name, doc) gen_tms_documents ->
+  exists t, decodeTMS doc = Ok t /\ tms_stable t.
+Proof.
+  intros name doc HI. assert (H := builtin_stable_lemma). rewrite forallb_forall in H. specialize (H _ HI). cbn [snd] in H.
+  destruct (decodeTMS doc) as [t| | |]; try discriminate. exists t. split; [reflexivity|apply tms_stableb_spec; exact H].
+Qed.
+Print Assumptions C16_builtin_stable.
